@@ -472,14 +472,17 @@ class Oracle:
         self.pre_lists = [list(list.__iter__(o)) for o in R.objs]
         self.pre_lats = [o.lattice if isinstance(o, R.Structure) else None for o in R.objs]
         self.pre_atom_ids = {id(a) for l in self.pre_lists for a in l}
-        lat_ids = set()
+        # keep every pre-existing atom and lattice object alive beyond the call: an operation may drop the
+        # last reference to a lattice and a new object could then reuse its id()
+        lat_objs = []
         for l, L in zip(self.pre_lists, self.pre_lats):
             if L is not None:
-                lat_ids.add(id(L))
+                lat_objs.append(L)
             for a in l:
                 if a.lattice is not None:
-                    lat_ids.add(id(a.lattice))
-        self.pre_lat_ids = lat_ids
+                    lat_objs.append(a.lattice)
+        R.graveyard.append((self.pre_lists, lat_objs))
+        self.pre_lat_ids = {id(x) for x in lat_objs}
         self.pre_n = len(R.objs)
 
     # expected plain-list result: (target handle or "new", expected list of atom objects) or ("raise",)
